@@ -110,6 +110,9 @@ func (db *DB) Merge() error {
 			if pos != nil && pos.Fid == dataFile.ID &&
 				pos.Offset == logRecordPos.Offset && pos.BlockID == logRecordPos.BlockID {
 				verifPoint("merge.rewrite", dataFile.ID)
+				// 有效记录所属的批处理必然已提交, 重写为普通记录
+				// 否则重写后缺少批处理完成标识, 重启时会被丢弃
+				logRecord.BatchID = 0
 				// 将数据重写到 merge 临时目录中
 				pos, err := mergeDB.appendLogRecord(logRecord)
 				if err != nil {
